@@ -8,14 +8,18 @@ use crate::{for_both, hx, Ctx, Tier};
 use blsful::*;
 use serde_json::json;
 
-pub const RULE: &str = "grid: edge scalars E (1,2,3,r-1,r-2,2^254,2^255-19 mod r,(r-1)/2,hash-derived,random, plus 9 keys whose compressed public key ends with NUL/LF/CR/space/quote/backslash/DEL/0x80/0xff) x message length classes x contents (random; all-zero, all-0xff, counter at lengths 1,32,33,128,257 in the quick tier, everywhere in the thorough tier) x 3 schemes x 2 group assignments, plus seeded random (key,len<=1024) cases in the thorough tier. Per case: sign twice (determinism), sign with the same scalar under the OTHER group assignment in between and sign again (history independence), verify, reference CoreVerify on the same bytes, then sk through {be,le,Vec,serde_bare,serde_json} and through the curve-tagged SecretKeyEnum's {be,le,Vec,serde_bare,serde_json} must re-sign to the same bytes and sig' x pk' through {bytes,serde_bare,serde_json}^2 must verify. History clusters (4 quick / 24 thorough per group assignment): the 18 questions {sign, verify} x 3 schemes x 2 group assignments + proof of possession {prove, verify with own key, verify with another key} x 2 over one (key, message) are asked in every ordered pair (a,b) as the sequence a,b,b,a and every answer must equal the reference's (answers may depend on the arguments only, not on what was asked before). A case is distinct by (suite,scheme,sk,msg); non-trivial = signing succeeded and the pairing check was evaluated by both library and reference.";
+pub const RULE: &str = "grid: edge scalars E (1,2,3,r-1,r-2,2^254,2^255-19 mod r,(r-1)/2,hash-derived,random, plus 9 keys whose compressed public key ends with NUL/LF/CR/space/quote/backslash/DEL/0x80/0xff) x message length classes (+ 160 / 208 where pk||msg is 256 bytes; thorough 159..161, 207..209) x contents (random; all-zero, all-0xff, counter at lengths 1,32,33,128,257 in the quick tier, everywhere in the thorough tier) x 3 schemes x 2 group assignments, plus seeded random (key,len<=1024) cases in the thorough tier. Per case: sign twice (determinism), sign with the same scalar under the OTHER group assignment in between and sign again (history independence), verify, reference CoreVerify on the same bytes, then sk through {be,le,Vec,serde_bare,serde_json} and through the curve-tagged SecretKeyEnum's {be,le,Vec,serde_bare,serde_json} must re-sign to the same bytes and sig' x pk' through {bytes,serde_bare,serde_json}^2 must verify. History clusters (4 quick / 24 thorough per group assignment): the 18 questions {sign, verify} x 3 schemes x 2 group assignments + proof of possession {prove, verify with own key, verify with another key} x 2 over one (key, message) are asked in every ordered pair (a,b) as the sequence a,b,b,a and every answer must equal the reference's (answers may depend on the arguments only, not on what was asked before). A case is distinct by (suite,scheme,sk,msg); non-trivial = signing succeeded and the pairing check was evaluated by both library and reference.";
 
 pub fn run(ctx: &mut Ctx) {
     for_both!(run_suite, ctx);
 }
 
-fn lengths(t: Tier) -> &'static [usize] {
-    t.pick(gen::LENGTHS_QUICK, gen::LENGTHS_FULL)
+fn lengths(t: Tier) -> Vec<usize> {
+    // + the lengths at which pk || msg (augmentation) is 255 / 256 / 257 bytes
+    let mut v: Vec<usize> = t.pick(gen::LENGTHS_QUICK, gen::LENGTHS_FULL).to_vec();
+    v.extend_from_slice(t.pick(&[160usize, 208][..], gen::LENGTHS_PK_BOUNDARY));
+    v.sort_unstable();
+    v
 }
 
 fn run_suite<C: Suite>(ctx: &mut Ctx) {
@@ -36,7 +40,7 @@ fn run_suite<C: Suite>(ctx: &mut Ctx) {
             ctx.require(&format!("{}/{}/len={}", C::NAME, scheme.name(), len));
         }
         for (ename, sk) in &edges {
-            for &len in lengths(ctx.tier) {
+            for &len in lengths(ctx.tier).iter() {
                 for &content in contents {
                     if !matches!(content, Content::Random) && (len == 0 || (ctx.tier == Tier::Quick && !quick_structured.contains(&len))) {
                         continue;
